@@ -249,6 +249,17 @@ fn axes() -> Vec<(String, Vec<(String, Mutator)>)> {
                 alts.push((format!("extreme:{}", v.chars().take(24).collect::<String>()), Arc::new(move |r: &mut R| r.req.set_header(&n, &v))));
             }
         }
+        if name == "authorization" {
+            // the base's own (well-formed, known-key) value with one field of the credential scope changed: the verdict is a
+            // refusal, but the request gets much further than a garbled header
+            for (label, from, to) in [("scope-service-sts", "/s3/aws4_request", "/sts/aws4_request"), ("scope-service-other", "/s3/aws4_request", "/ec2/aws4_request"), ("scope-region-other", "/us-east-1/", "/eu-west-1/"), ("scope-terminator-other", "/aws4_request", "/aws4_requesu"), ("algorithm-other", "AWS4-HMAC-SHA256", "AWS4-ECDSA-P256-SHA256")] {
+                alts.push((format!("rewritten:{label}"), Arc::new(move |r: &mut R| {
+                    if let Some(v) = r.req.get_header("authorization") {
+                        r.req.set_header("authorization", &v.replace(from, to));
+                    }
+                })));
+            }
+        }
         let n = name.clone();
         alts.push(("absent".into(), Arc::new(move |r: &mut R| r.req.remove_header(&n))));
         let n = name.clone();
@@ -848,7 +859,7 @@ pub fn run(ctx: &Ctx) -> (Acc, Report) {
     let k = ctx.tier.pick(2, 3);
     let rep = Report {
         level: "exploration",
-        rule: format!("(a) 19 valid base requests (anonymous GET/HEAD/list, V4 header with unsigned / signed / chunk-signed payload, V4 presigned, V2 header, V2 presigned, POST form, XML PUT, copy, ranged GET; and six signed requests that do not hash the payload - unsigned payload, presigned, SigV2, chunk-signed - on operations whose body is a buffered XML or policy document) x 16 service configurations x every combination of at most {k} deviations (triples on 2 configurations) out of {n_single} single deviations: 9 methods, 21 paths, 42 queries, 32 interpreted headers x {{absent, empty, garbage, opaque bytes >= 0x80, plausible-but-wrong, duplicated}}, 5 bodies incl. I/O errors, 2 HTTP versions. (a2) {n_chars} character-level deviations: every decoded text the adapter interprets (each query parameter value of each base - the presigned-URL parameters of both signature versions among them -, the key, the copy source, each field of the POST form) with a 2-, 3- and 4-byte character, NUL, '%' and '/' written over and inserted at every byte offset, on 4 configurations. (a3) {n_framed} structural mutants of the two framed bodies (POST form, chunk-signed upload): cut at every offset, every byte deleted, every CR LF deleted, every line deleted / doubled, each with the Content-Length as sent and corrected, with and without a provider. Oracle: no panic, no hang, Ok(response), and for status >= 400 a well-formed <Error> document whose code has that status in data/s3_error_codes.json. (b) every code of the error table + 2 custom codes x 10 messages x 3 request ids x status override x 4 header maps (none, one, three, one with a name attached twice) x {{S3Error::to_http_response, backend error through GetObject, late backend error of the keep-alive operation, and the same error returned by S3Access::check, by S3Auth::get_secret_key and by a custom route's handler}}. Distinct by id."),
+        rule: format!("(a) 19 valid base requests (anonymous GET/HEAD/list, V4 header with unsigned / signed / chunk-signed payload, V4 presigned, V2 header, V2 presigned, POST form, XML PUT, copy, ranged GET; and six signed requests that do not hash the payload - unsigned payload, presigned, SigV2, chunk-signed - on operations whose body is a buffered XML or policy document) x 16 service configurations x every combination of at most {k} deviations (triples on 2 configurations) out of {n_single} single deviations: 9 methods, 21 paths, 42 queries, 32 interpreted headers x {{absent, empty, garbage, opaque bytes >= 0x80, plausible-but-wrong, duplicated}} (Authorization also: the valid value with one scope field rewritten - service sts / another, region, terminator, algorithm), 5 bodies incl. I/O errors, 2 HTTP versions. (a2) {n_chars} character-level deviations: every decoded text the adapter interprets (each query parameter value of each base - the presigned-URL parameters of both signature versions among them -, the key, the copy source, each field of the POST form) with a 2-, 3- and 4-byte character, NUL, '%' and '/' written over and inserted at every byte offset, on 4 configurations. (a3) {n_framed} structural mutants of the two framed bodies (POST form, chunk-signed upload): cut at every offset, every byte deleted, every CR LF deleted, every line deleted / doubled, each with the Content-Length as sent and corrected, with and without a provider. Oracle: no panic, no hang, Ok(response), and for status >= 400 a well-formed <Error> document whose code has that status in data/s3_error_codes.json. (b) every code of the error table + 2 custom codes x 10 messages x 3 request ids x status override x 4 header maps (none, one, three, one with a name attached twice) x {{S3Error::to_http_response, backend error through GetObject, late backend error of the keep-alive operation, and the same error returned by S3Access::check, by S3Auth::get_secret_key and by a custom route's handler}}. Distinct by id."),
         exhaustive: true,
         extra: json!({"single_deviations": n_single, "character_level_deviations": n_chars, "framed_body_mutants": n_framed, "error_codes": ERROR_TABLE.len()}),
         assumptions: vec!["a transport failure after an injected body I/O error is not judged (it is a transport problem, not a request problem)".into(), "requests the http crate itself refuses cannot reach the adapter and are outside the space".into(), "messages do not contain a bare carriage return (XML line-end normalisation is C13's subject)".into()],
